@@ -16,8 +16,8 @@ CLAIMS = {
             'offset) and both vertices, the matrix calc_jacobians returns (program regenerated from the source) applied to any tangent '
             'direction u equals the derivative at 0 of every error component along vertex [+] t u -- proved by a chain-rule argument over the '
             'regenerated stages with the C10 tangent identities; SE(3)/R^n: no hypothesis on operands at all (any quaternion, w<0, 180 deg); '
-            'SE(2): vertex angle in range and the wrapped angles of the stages not exactly at the wrap (the property excludes only the outer '
-            'one; the two extra measure-zero sets are covered by the finite-difference oracle only -- stated in the evidence).',
+            'SE(2): the only excluded points are those the property itself excludes (odometry: angle residual z-(th2-th1) an odd multiple of pi, where the '
+            'error jumps); intermediate normalisations are shown to cancel by periodicity (proofs/C01_SE2_full.v); SE(2) landmark: no point excluded.',
             AX + TR + 'tools/tr_edges.py likewise validated by the PrimFloat correspondence of the edge programs. np.dot = textbook matrix product. Theorem over exact reals.',
             'Coq proof (chain rule over regenerated staged programs, dual numbers + ring) + PrimFloat correspondence'),
     'C02': ('proof',
